@@ -187,9 +187,11 @@ def matCase {α β} (me : ME α) (meIdeal : Option (ME α)) (se : SE β) (routin
         | none => bad
         | some exact =>
           if exact == m then (m, runSpec se routine nr nc k a b out)
-          else if !fitsI64 exact then ("-", ok)
+          -- overflow: the payload compared with the implementation is the overflow-checked
+          -- model's own answer (normally PANIC, as in the overflow-checked harness build)
+          else if !fitsI64 exact then (m, ok)
           else if (toks exact) == out then ("-", runSpec se routine nr nc k a b out)
-          else ("-", fail "machine-integer-overflow")
+          else (m, fail "machine-integer-overflow")
 
 /-! ### prime residue classes -/
 
